@@ -766,10 +766,21 @@ impl Gen {
                         Some(Box::new(Node::Null))
                     } else {
                         // (never appending to the stream being folded: that would be a script-level endless recursion)
+                        // It runs once per generation of the folded stream (docs/fold.md), so it is treated like a fold
+                        // body: outer streams are write-only, streams it reads must be new-scoped inside it.
                         let mut ls = sc.clone();
-                        ls.streams.retain(|x| *x != s);
-                        ls.wo.retain(|x| *x != s);
                         ls.folding.push(s.clone());
+                        let mut wo = ls.wo.clone();
+                        for x in &ls.streams {
+                            if !wo.contains(x) {
+                                wo.push(x.clone());
+                            }
+                        }
+                        wo.retain(|x| *x != s);
+                        ls.wo = wo;
+                        ls.streams.clear();
+                        ls.maps.clear();
+                        ls.in_fold = true;
                         Some(Box::new(self.gen(rng, 1, &mut ls)))
                     }
                 } else {
